@@ -389,6 +389,33 @@ def main(argv):
     c.cov["traces_validated_against_impl"] += len(tcases)
     c.sample({"tool_case": tlines[3][:200]})
 
+    # ---------------- the stream-level model (one stream to the child, one back) vs the tool, incl. children
+    #     that break the line structure: one that swallows its 2nd line (the tool must fail) and one that adds
+    #     a line after the end of its input (foldfilter does not notice surplus output after the last line)
+    if drv is not None and hangs < 3 and fails < 12:
+        scases = [(w, k, d, ch, inp) for (w, k, d, ch, inp) in tcases[:60]]
+        for inp in (b"ab cd ef\nxyz\n", b"one\n", b"a b\n\nc d e\n", b""):
+            for ch in ("drop2", "extra"):
+                scases.append((3, False, [32], ch, inp))
+                scases.append((80, True, None, ch, inp))
+        sl = ["TS %d %d %s %s %s" % (w, 1 if k else 0, dl(d if d is not None else [58, 44, 32, 45, 46, 47]), ch, hx(inp)) for (w, k, d, ch, inp) in scases]
+        rc, sm, err = run_lines(drv, sl)
+        if len(sm) != len(sl):
+            c.broken.append("model driver died on stream cases: " + err[-200:])
+        else:
+            for (w, k, d, ch, inp), m, l in zip(scases, sm, sl):
+                argv = [tool, "-w", str(w)] + ([] if k else ["-s"]) + (["-d", "".join(chr(x) for x in d)] if d is not None else []) + [os.path.join(CHILDREN, "child_%s.py" % ch)]
+                st, so, se = run_limited(argv, stdin=inp, timeout=10, mem_mb=2048)
+                c.count(("stream", w, k, ch, inp), nontrivial=len(inp) > 0, bucket="tool-stream/" + ch)
+                agree = (m == "OK " + hx(so) and st == 0) or (m == "SHORT" and st not in (0, "timeout"))
+                if not agree:
+                    c.broken.append("correspondence foldfilter_stream model vs bin/foldfilter: case %r: model %s, tool status %s stdout %s" % (l[:160], m[:120], st, hx(so)[:120]))
+                    break
+                npieces_lines = len(inp.split(b"\n")) - 1
+                if ch == "drop2" and st == 0 and m == "SHORT":
+                    c.violation("line-structure-broken-unnoticed: child_drop2.py swallowed a line, foldfilter exit 0", {"op": "tool", "argv": argv[1:], "stdin": inp.decode("utf-8", "replace"), "status": st, "stdout_hex": hx(so)})
+            c.cov["traces_validated_against_impl"] += len(sl)
+
     # ---------------- long streams: the feeder->collector queue (util::UnboundedSingleQueue) works in pages of
     #     1023 entries; line counts around multiples of the page size, all at once and with stdin stalling
     #     right after a long line at a page boundary (the collector then catches up with the feeder there)
